@@ -982,6 +982,26 @@ class Run:
                 buf[len(buf) - 1:len(buf) - 1] = chars
                 self.objlen[oid] = len(buf) - 1
                 return ('P', ('O', oid), 0) if False else ('OBJ', oid)
+            if oid in self.strobjs and (name == 'operator=' or e.get('op') == '=' or name == 'assign') and len(e.get('a', [])) == 1:
+                # a local String assigned a C string, another String, a substring or a character
+                v_ = self.val(e['a'][0])
+                if isinstance(v_, tuple) and v_[0] == 'P':
+                    chars = self.cstring(v_, e.get('l'))
+                elif isinstance(v_, tuple) and v_[0] == 'STRV':
+                    chars = list(v_[1])
+                elif isinstance(v_, tuple) and v_[0] == 'OBJ' and v_[1] in self.strobjs:
+                    chars = list(self.bufs[('O', v_[1])][:-1])
+                elif isinstance(v_, int):
+                    chars = [v_]
+                else:
+                    raise Unsupported('`%s`' % pe(e))
+                self.bufs[('O', oid)][:] = chars + [0]
+                self.objlen[oid] = len(chars)
+                return ('OBJ', oid)
+            if oid in self.strobjs and name == 'clear' and not e.get('a'):
+                self.bufs[('O', oid)][:] = [0]
+                self.objlen[oid] = 0
+                return ('OBJ', oid)
             if oid in self.strobjs and name == 'indexOf' and 1 <= len(e.get('a', [])) <= 2:
                 buf = self.bufs[('O', oid)]
                 n_ = len(buf) - 1
